@@ -34,6 +34,8 @@ type Impl struct {
 	// (objects that add or remove other objects from their hooks).
 	OnAct  func(a bus.Activation)
 	OnTerm func()
+	// FailAct makes the next activation fail.
+	FailAct bool
 }
 
 // InitialLevel is the value of the level property after activation.
@@ -62,6 +64,10 @@ func (p *Impl) Activate(activation bus.Activation, helper ProbeSignalHelper) err
 	p.Act = activation
 	p.Helper = helper
 	p.Activated++
+	if p.FailAct {
+		p.FailAct = false
+		return fmt.Errorf("activation refused")
+	}
 	if p.OnAct != nil {
 		p.OnAct(activation)
 	}
